@@ -49,6 +49,8 @@ def cases(tier, seed):
             yield "image", dict(shape=sh, proj=pj, crpix=cp, scale=sc, region=rk, depth=depth)
     for m in range(32):
         yield "table", dict(rows=m)
+    for k in range(4):
+        yield "cli", dict(k=k)
 
 
 def make_region(kind, depth, hdr, shape, seed):
@@ -259,5 +261,53 @@ def ev_table(case, ctx):
     os.remove(fmim)
 
 
+def ev_cli(case, ctx):
+    """MIMAS command line: --maskimage / --maskcat with and without --negate, --colnames"""
+    import logging
+    from AegeanTools.CLI import MIMAS as cli
+    k = case["k"]
+    negate = bool(k % 2)
+    d = os.environ["VERIF_SCRATCH"]
+    shape = (12, 19)
+    hdr = wz.make_header("SIN", (77.0, 21.0), 0.5, shape)
+    reg = make_region("circle", 8, hdr, shape, ctx.seed)
+    inside, amb = oracle_inside(hdr, shape, reg)
+    fm, fi, fo = [os.path.join(d, n) for n in ("cli.mim", "cli_in.fits", "cli_out.fits")]
+    reg.save(fm)
+    base = np.arange(shape[0] * shape[1], dtype=np.float32).reshape(shape) + 1
+    fits.PrimaryHDU(data=base, header=wz.to_fits_header(hdr)).writeto(fi, overwrite=True)
+    logging.disable(logging.CRITICAL)
+    sig = "cli:k=%d,negate=%s" % (k, negate)
+    ctx.count("cli")
+    ctx.nontrivial(sig)
+    try:
+        if k < 2:
+            cli.main(["--maskimage", fm, fi, fo] + (["--negate"] if negate else []))
+            out = fits.getdata(fo)
+            exp_blank = inside if negate else ~inside
+            wrong = ((~np.isfinite(out)) != exp_blank) & ~amb
+            if np.any(wrong):
+                ctx.violation("MIMAS --maskimage%s blanks the wrong pixels (%d of %d)" % (" --negate" if negate else "", int(wrong.sum()), wrong.size), "cli_image|" + sig)
+        else:
+            ra_in, dec_in = [float(v) for v in wz.pix2sky(hdr, shape[1] * 0.35 + 1, shape[0] * 0.6 + 1)]
+            t = Table()
+            t["RAJ"] = np.array([ra_in, ra_in + 40.0, np.nan])
+            t["DEJ"] = np.array([dec_in, dec_in - 30.0, dec_in])
+            t["tag"] = np.array(["inside", "outside", "undef"], dtype="U12")
+            fc, fco = os.path.join(d, "cli_cat.csv"), os.path.join(d, "cli_cat_out.csv")
+            t.write(fc, overwrite=True)
+            if os.path.exists(fco):
+                os.remove(fco)
+            cli.main(["--maskcat", fm, fc, fco, "--colnames", "RAJ", "DEJ"] + (["--negate"] if negate else []))
+            got = [str(x).strip() for x in Table.read(fco)["tag"]]
+            exp = ["inside"] if negate else ["outside", "undef"]
+            if got != exp:
+                ctx.violation("MIMAS --maskcat%s kept %r, expected %r" % (" --negate" if negate else "", got, exp), "cli_cat|" + sig)
+    except SystemExit:
+        pass
+    except Exception as e:
+        ctx.violation("MIMAS CLI raised %r (%s)" % (e, sig), "cli_raise|" + sig)
+
+
 def evaluate(clause, case, ctx):
-    dict(image=ev_image, table=ev_table)[clause](case, ctx)
+    dict(image=ev_image, table=ev_table, cli=ev_cli)[clause](case, ctx)
